@@ -61,7 +61,7 @@ int main(void)
        * sequential one (which leaves out every product with a missing operand) */
       { matrix *mm, *mmt; dvector *pr, *pm;
         NewMatrix(&mm, R, 3); NewMatrix(&mmt, 3, R);
-        for(i = 0; i < R; i++) for(j = 0; j < 3; j++){ double x = (i % 3 == 1 && j == 1) ? MISSING : val(i, j); mm->data[i][j] = x; mmt->data[j][i] = x; }
+        for(i = 0; i < R; i++) for(j = 0; j < 3; j++){ double x = (i % 3 == 1 && j == 1) ? MISSING + ((i % 4 == 1) ? 0.05 : ((i % 4 == 2) ? -0.09 : 0.0)) : val(i, j); mm->data[i][j] = x; mmt->data[j][i] = x; }
         NewDVector(&pr, R); NewDVector(&pm, R);
         MatrixDVectorDotProduct(mm, v, pr);
         verif_nproc_override = T; MT_MatrixDVectorDotProduct(mm, v, pm); verif_nproc_override = 0;
@@ -72,6 +72,19 @@ int main(void)
         verif_nproc_override = T; MT_DVectorMatrixDotProduct(mmt, v, pm); verif_nproc_override = 0;
         bad = -1; for(i = 0; i < R; i++) if(!same(pr->data[i], pm->data[i]) && bad < 0) bad = (long)i;
         pr_long("vecmatmissing_bad_col", bad);
+        /* and with a vector entry inside the window around the code (not exactly the code) */
+        { dvector *vv; long bad2 = -1; NewDVector(&vv, 3); vv->data[0] = v->data[0]; vv->data[1] = MISSING + 0.05; vv->data[2] = v->data[2];
+          DelDVector(&pr); DelDVector(&pm); NewDVector(&pr, R); NewDVector(&pm, R);
+          MatrixDVectorDotProduct(mm, vv, pr);
+          verif_nproc_override = T; MT_MatrixDVectorDotProduct(mm, vv, pm); verif_nproc_override = 0;
+          for(i = 0; i < R; i++) if(!same(pr->data[i], pm->data[i]) && bad2 < 0) bad2 = (long)i;
+          if(bad < 0) bad = bad2;
+          DelDVector(&pr); DelDVector(&pm); NewDVector(&pr, R); NewDVector(&pm, R);
+          DVectorMatrixDotProduct(mmt, vv, pr);
+          verif_nproc_override = T; MT_DVectorMatrixDotProduct(mmt, vv, pm); verif_nproc_override = 0;
+          for(i = 0; i < R; i++) if(!same(pr->data[i], pm->data[i]) && bad < 0) bad = (long)i;
+          pr_long("vecmissing_window_bad", bad);
+          DelDVector(&vv); }
         DelDVector(&pr); DelDVector(&pm); DelMatrix(&mm); DelMatrix(&mmt); }
       /* square distance matrices */
       for(me = 0; me < 4; me++){
@@ -135,6 +148,12 @@ int main(void)
         snprintf(nm, sizeof nm, "square%d", me); pr_matrix(nm, D); DelMatrix(&D);
         initMatrix(&D); CalculateDistance(m1, m1, D, T, (enum cmethod)me);
         snprintf(nm, sizeof nm, "self%d", me); pr_matrix(nm, D); DelMatrix(&D);
+        { /* the same table against a distinct copy of m1: the result may not depend on the two arguments being one object */
+          matrix *cp; size_t a, b; NewMatrix(&cp, m1->row, m1->col);
+          for(a = 0; a < m1->row; a++) for(b = 0; b < m1->col; b++) cp->data[a][b] = m1->data[a][b];
+          initMatrix(&D); CalculateDistance(m1, cp, D, T, (enum cmethod)me);
+          snprintf(nm, sizeof nm, "selfcopy%d", me); pr_matrix(nm, D); DelMatrix(&D); DelMatrix(&cp);
+        }
         initDVector(&cd);
         if(me == 0) EuclideanDistanceCondensed(m1, cd, T);
         else if(me == 1) SquaredEuclideanDistanceCondensed(m1, cd, T);
